@@ -29,6 +29,8 @@ from ..lib.evidence import Report, machinery_failure
 PID = "C06"
 STR_LEAVES = {"yval", "name", "ckpt"}
 CHANNELS = ["object_nested", "object_dotted", "string", "cfgfile", "argv", "env", "object_nodefaults", "string_nodefaults", "argv_nodefaults"]
+DEV2 = ("a key that the parser does not define whose VALUE is an empty mapping ({} or nested empty mappings) is silently dropped at every position: "
+        "validation only walks leaf keys and an empty namespace has none")
 DEV = ("a key that the parser does not define, placed inside the section of a sub-command that is NOT the chosen one, is dropped with the section "
        "and never reported")
 
@@ -112,6 +114,8 @@ SHAPE_EXTRA = {  # what the emitted shape does not carry (class tables), same as
 def conc_value(path, v, strpaths=None):
     if v == "null":
         return None
+    if v == "emptymap":
+        return {}
     if path == ["subcommand"]:
         return v
     if strpaths is not None:
@@ -314,7 +318,7 @@ def random_case(rnd, shape_paths):
                 containers.append(["items", "#"])
             pos = rnd.choice(containers)
             name = rnd.choice([["zzq"], ["zzq+"], ["zzq", "deep"], ["zzq", "deep", "er"], ["Zzq"], ["zzq_1"], ["alph"], ["epoch"], ["lr_dec"], ["xva"]])
-            cfg = [e for e in cfg if e["p"] != pos + name] + [{"p": pos + name, "v": "1"}]
+            cfg = [e for e in cfg if e["p"] != pos + name] + [{"p": pos + name, "v": "emptymap" if rnd.random() < 0.15 and not name[-1].endswith("+") else "1"}]
             muts.append(["foreign", pos, name])
         else:
             req = [e["p"] for e in cfg if e["p"] in (["top"], ["g", "alpha"], ["dc", "xval"], ["dc2", "inner", "xval"], ["model", "class_path"],
@@ -611,7 +615,7 @@ def main(argv):
         return any(any(k.startswith(n.rstrip("+")) and k != n for k in known_names) for n in names)
 
     cases = [{"abbrev": c["mut"]["kind"] == "foreign" and abbrev(c["mut"]["n"][:1]), "cfg": c["cfg"], "foreign_free": c["mut"]["kind"] in ("none", "remove", "null") and foreign_free(c["cfg"], shape_paths), "ref": c["ref"], "alg": c["alg"],
-              "dev": c["dev"], "mut": c["mut"], "base": c["base"]} for c in emitted]
+              "dev": c["dev"], "devkind": c["devkind"], "mut": c["mut"], "base": c["base"]} for c in emitted]
     results = pipeline.run_many(run_case, cases, chunksize=4)
     nparse = 0
     for c, outs in zip(cases, results):
@@ -626,18 +630,21 @@ def main(argv):
                 continue
             if o["out"] != c["ref"]:
                 if c["dev"] and o["out"] == c["alg"]:
-                    rep.violation("non-chosen-section:foreign-key-dropped", DEV, case)
+                    if c["devkind"] == "emptymap":
+                        rep.violation("foreign-key:empty-mapping-dropped", DEV2, case)
+                    else:
+                        rep.violation("non-chosen-section:foreign-key-dropped", DEV, case)
                 else:
                     pos = ".".join(c["mut"]["p"]) or "root"
                     rep.violation(f"{o['ch']}:{c['mut']['kind']}:{pos}:{'.'.join(c['mut']['n'])}:{'silently-accepted' if o['out'] == 'ok' else 'rejected-valid'}",
                                   ("a mutated configuration was accepted" if o["out"] == "ok" else "a valid configuration was rejected") + f" ({o['msg'][:120]})", case)
-            elif o["out"] == "err" and c["mut"]["kind"] in ("foreign", "remove", "null"):
-                leaf = (c["mut"]["n"][-1] if c["mut"]["kind"] == "foreign" else c["mut"]["p"][-1]).rstrip("+")
-                if c["mut"]["kind"] == "foreign" and len(c["mut"]["n"]) > 1:
+            elif o["out"] == "err" and c["mut"]["kind"] in ("foreign", "foreign-empty", "remove", "null"):
+                leaf = (c["mut"]["n"][-1] if c["mut"]["kind"].startswith("foreign") else c["mut"]["p"][-1]).rstrip("+")
+                if c["mut"]["kind"].startswith("foreign") and len(c["mut"]["n"]) > 1:
                     leaf = c["mut"]["n"][0]
                 if leaf == "class_path":
                     leaf = "model"
-                if leaf not in o["msg"] and not (c["mut"]["kind"] != "foreign" and c["mut"]["p"][0] in o["msg"]):
+                if leaf not in o["msg"] and not (not c["mut"]["kind"].startswith("foreign") and c["mut"]["p"][0] in o["msg"]):
                     rep.violation(f"message:{o['ch']}:{c['mut']['kind']}:{'.'.join(c['mut']['p']) or 'root'}", f"the rejection does not name the offending key '{leaf}': {o['msg'][:160]}", case)
         if rep.traces % 97 == 1:
             rep.sample({"base": c["base"], "mutation": c["mut"], "expected": c["ref"], "calls": [{"ch": o["ch"], "call": o["call"][:200], "out": o["out"], "msg": o["msg"][:100]} for o in outs[:3]]})
@@ -682,7 +689,9 @@ def main(argv):
                 case = {"cfg": c["cfg"], "mutations": c["muts"], "channel": o["ch"], "call": o["call"], "observed": o["out"], "message": o["msg"], "clause": p[3]}
                 if "tree" in c:
                     case["shape_tree"] = c["tree"]
-                if p[3] == "ref-dev-as-alg":
+                if p[3] == "ref-dev-as-alg:emptymap":
+                    rep.violation("foreign-key:empty-mapping-dropped", DEV2, case)
+                elif p[3].startswith("ref-dev-as-alg"):
                     rep.violation("non-chosen-section:foreign-key-dropped", DEV, case)
                 elif p[3] == "ref":
                     rep.violation(f"random{'-shape' if 'tree' in c else ''}:{o['ch']}:{'silently-accepted' if o['out'] == 'ok' else 'rejected-valid'}:{_mutkey(c['muts']) if 'tree' not in c else _mutkinds(c)}",
